@@ -1,7 +1,7 @@
 (* C13 — a failed snapshot import leaves the store unchanged; a successful one adds exactly
    the snapshot.  Property theorems only; proofs live in proofs/SnapshotImportProofs.v. *)
 From Coq Require Import List NArith ZArith Bool.
-From Verif Require Import SnapshotJson SnapshotImportProofs SnapshotContentProofs.
+From Verif Require Import SnapshotJson SnapshotImportProofs SnapshotContentProofs SnapshotProvenanceProofs.
 Import ListNotations.
 Open Scope N_scope.
 
@@ -66,6 +66,24 @@ Theorem C13_success_content : forall narrow norm numstr s h ls ks s' c m,
     /\ astar narrow norm numstr ks (nodes s, edges s, []) acts (nodes s', edges s', im)
     /\ c = nlen (created_ids acts) /\ m = N.of_nat (count_merges acts).
 Proof. exact success_actions. Qed.
+
+(* "merged on the requested dedup keys": C13_success_content, plus, for every merge action in
+   the sequence, what its target matched (hit_prov): under one of the dedup keys the record
+   carries a string or number whose normalised form vs, together with one of the record's
+   labels l ("" if it has none), is answered by the target - which is either a node of the
+   start store carrying label l (a label of the header) whose row or column value under that
+   key normalises to vs, or a node created earlier from this stream by a record carrying
+   label l and a value normalising to vs under that key. *)
+Theorem C13_success_content_merged_on_keys : forall narrow norm numstr s v2 labels ls ks s' c m,
+  wf_pre s -> wf_lines ls ->
+  import narrow norm numstr s (HOk v2 labels) ls ks = Imported s' c m ->
+  exists acts im,
+    map act_rec acts = line_recs ls
+    /\ astar narrow norm numstr ks (nodes s, edges s, []) acts (nodes s', edges s', im)
+    /\ c = nlen (created_ids acts) /\ m = N.of_nat (count_merges acts)
+    /\ (forall p r eid q, acts = p ++ AMerge r eid :: q ->
+         hit_prov narrow norm numstr s labels v2 ks p r eid).
+Proof. exact success_actions_prov. Qed.
 
 (* what any such sequence of actions means: *)
 
@@ -140,3 +158,4 @@ Print Assumptions C13_content_existing_nodes.
 Print Assumptions C13_content_created_nodes.
 Print Assumptions C13_content_ids_distinct.
 Print Assumptions C13_merge_rule_observable.
+Print Assumptions C13_success_content_merged_on_keys.
